@@ -88,12 +88,25 @@ def trace(fn, xml):
     for k, v in saved.items():
       setattr(smooth, k, v)
   hr.marks = marks
-  hr.other = [(e.kind, e.info) for e in hr.events if e.kind in ("zero_", "fill_", "copy")]
+  hr.other = []  # (number of launches before, kind, info) of host-side array writes
+  n = 0
+  for e in hr.events:
+    if e.kind in ("launch", "launch_tiled"):
+      n += 1
+    elif e.kind in ("zero_", "fill_", "copy"):
+      hr.other.append((n, e.kind, e.info))
   return hr
 
 
-def sigs(ls):
-  return [l.sig() for l in ls]
+def sigs(ls, ren=None):
+  """launch signatures with scratch arrays renamed by order of first appearance (temporaries get fresh names per run)"""
+  ren = {} if ren is None else ren
+  out = []
+  for l in ls:
+    k, dim, labs = l.sig()
+    labs = tuple(ren.setdefault(x, f"scratch{len(ren)}") if isinstance(x, str) and x.startswith("tmp") else x for x in labs)
+    out.append((k, dim, labs))
+  return out
 
 
 # ------------------------------------------------------------------------------------------------ step == step1;step2
@@ -111,9 +124,8 @@ def native_compose(integ, sleep):
   mjd = mujoco.MjData(mjm)
   rng = np.random.default_rng(3)
   if sleep:
-    for _ in range(400):  # let both spheres fall asleep, then push one of them
+    for _ in range(400):  # let both spheres fall asleep
       mujoco.mj_step(mjm, mjd)
-    mjd.xfrc_applied[1, 2] = 50.0
   else:
     mjd.qvel[:] = rng.uniform(-0.5, 0.5, size=mjm.nv)
     mjd.ctrl[:] = 0.7
@@ -121,10 +133,17 @@ def native_compose(integ, sleep):
       mujoco.mj_step(mjm, mjd)
   m = mjw.put_model(mjm)
   da, db = mjw.put_data(mjm, mjd), mjw.put_data(mjm, mjd)
+  ma, mb = copy.copy(mjd), copy.copy(mjd)
+  if sleep:  # user input: push the first (sleeping) sphere upwards
+    for dd in (da, db):
+      x = dd.xfrc_applied.numpy()
+      x[0, 1, 2] = 50.0
+      dd.xfrc_applied = wp.array(x, dtype=wp.spatial_vector)
+    ma.xfrc_applied[1, 2] = 50.0
+    mb.xfrc_applied[1, 2] = 50.0
   mjw.step(m, da)
   mjw.step1(m, db)
   mjw.step2(m, db)
-  ma, mb = copy.copy(mjd), copy.copy(mjd)
   mujoco.mj_step(mjm, ma)
   mujoco.mj_step1(mjm, mb)
   mujoco.mj_step2(mjm, mb)
@@ -149,7 +168,7 @@ def compose_replay(ctx, integ, sleep, what):
     os.makedirs(os.path.join(report.VERIF, "replays", PID), exist_ok=True)
     path = os.path.join(report.VERIF, "replays", PID, f"{ctx.unit.replace('/', '_')}.{what}.json")
     with open(path, "w") as f:
-      json.dump({"property": PID, "xml": xml_for(integ, sleep=sleep), "how": ("both spheres asleep after 400 mj_step, xfrc_applied[1,2] = 50; " if sleep else "random qvel, ctrl 0.7, 3 mj_step; ") + "put_data twice; mjw.step vs mjw.step1 + mjw.step2 (mujoco's own mj_step vs mj_step1 + mj_step2 for comparison)", "fields": out, "step equals step1;step2": same}, f, indent=1)
+      json.dump({"property": PID, "xml": xml_for(integ, sleep=sleep), "how": ("both spheres asleep after 400 mj_step, put_data, then xfrc_applied[body 1, z] = 50 (user input before the step); " if sleep else "random qvel, ctrl 0.7, 3 mj_step; ") + "put_data twice; mjw.step vs mjw.step1 + mjw.step2 (mujoco's own mj_step vs mj_step1 + mj_step2 for comparison)", "fields": out, "step equals step1;step2": same}, f, indent=1)
     return (not same), path
 
   return _rp
@@ -174,9 +193,32 @@ def capture(key):
   which, integ, delay, sleep, idx = key.split("|")
   import mujoco_warp as mjw
 
-  fn = {"step12": lambda m, d: (mjw.step1(m, d), mjw.step2(m, d)), "forward": lambda m, d: mjw.forward(m, d)}[which]
+  fn = {"step12": lambda m, d: (mjw.step1(m, d), mjw.step2(m, d)), "forward": lambda m, d: mjw.forward(m, d), "step": lambda m, d: mjw.step(m, d)}[which]
   hr = trace(fn, xml_for(integ, delay == "1", sleep == "1"))
   return hr.launches[int(idx)].kernel
+
+
+def history_stubs():
+  """contracts of the history funcs (decided by C30): an insertion stores into its own buffer of Data.history, a vector read
+  stores into sensordata[adr:adr+dim], a scalar read returns a value -- enough to decide WHICH arrays a caller can write"""
+
+  def ins_scalar(it, fr, a):
+    worldid, off, buf = a[0], a[1], a[5]
+    it.store(buf, (worldid, core.arith("+", off, 1)), it.fresh_val("real", "hist"), it.active(fr), "contract:_history_insert_scalar")
+
+  def ins_vector(it, fr, a):
+    worldid, off, buf = a[0], a[1], a[7]
+    it.store(buf, (worldid, core.arith("+", off, 1)), it.fresh_val("real", "hist"), it.active(fr), "contract:_history_insert_vector")
+
+  def read_scalar(it, fr, a):
+    return it.fresh_val("real", "hread")
+
+  def read_vector(it, fr, a):
+    adr, worldid, out = a[0], a[2], a[8]
+    it.store(out, (worldid, adr), it.fresh_val("real", "hread"), it.active(fr), "contract:_history_read_vector")
+    return 1
+
+  return {"_history_insert_scalar": ins_scalar, "_history_insert_vector": ins_vector, "_history_read_scalar": read_scalar, "_history_read_vector": read_vector}
 
 
 def write_query(ctx, l, loc, param, name, desc, replay=None):
@@ -185,7 +227,7 @@ def write_query(ctx, l, loc, param, name, desc, replay=None):
     ctx.notes.append(f"outside: tile kernel {l.key} binds {param}: not encodable")
     return None
   try:
-    kt = lib.kernel_thread(l.kernel, unroll=2, alias_inout=False, interp_kw={"float_uf": True})
+    kt = lib.kernel_thread(l.kernel, unroll=2, alias_inout=False, interp_kw={"float_uf": True, "summaries": history_stubs()})
   except core.Unsupported as ex:
     ctx.notes.append(f"outside: {l.key} binds {param} but is not encodable ({ex})")
     return None
@@ -228,7 +270,8 @@ def unit_compose(integ, sleep=False):
     rp = lambda what: compose_replay(ctx, integ, sleep, what)
     A, B = a.launches, b.launches
     if not sleep:
-      okm = len(a.marks["factor_solve_i"]) == 1 and len(b.marks["factor_m"]) == 1 and len(b.marks["solve_m"]) == 1 and not a.marks["factor_m"] and not a.marks["solve_m"] and not b.marks["factor_solve_i"]
+      # step(): the first factor_solve_i (on Data.M) is fwd_acceleration's; later ones (the integrators' own systems) occur in both
+      okm = len(a.marks["factor_solve_i"]) >= 1 and len(b.marks["factor_m"]) == 1 and len(b.marks["solve_m"]) == 1 and not a.marks["factor_m"] and not a.marks["solve_m"] and len(b.marks["factor_solve_i"]) == len(a.marks["factor_solve_i"]) - 1
       ctx.prove(sess, "factorisation-points", z3.BoolVal(okm), desc=f"step() / step1();step2() do not factorise M exactly once as expected: step {a.marks}, step1;step2 {b.marks}", replay=rp("factorisation-points"))
       if not okm:
         return
@@ -238,10 +281,20 @@ def unit_compose(integ, sleep=False):
     else:
       # sleep enabled: M is solved in compacted space in both paths; the traces must be identical
       A0, A1, B0, B1, B2 = A, [], B, [], []
-    pa, pb = sigs(A0), sigs(B0) + sigs(B1)
+    ra, rb = {}, {}
+    pa, pb = sigs(A0, ra), sigs(B0 + B1, rb)
     ctx.prove(sess, "same-launches/up-to-acceleration", z3.BoolVal(pa == pb), desc=f"step() and step1();step2() launch different kernels / bind different arrays before the smooth acceleration solve: {first_diff(pa, pb)}", replay=rp("same-launches"))
-    ctx.prove(sess, "same-launches/after-acceleration", z3.BoolVal(sigs(A1) == sigs(B2)), desc=f"step() and step1();step2() differ after the smooth acceleration solve: {first_diff(sigs(A1), sigs(B2))}", replay=rp("same-launches-after"))
-    ctx.prove(sess, "same-host-writes", z3.BoolVal(a.other == b.other), desc=f"zero_/fill_/copy operations differ: {first_diff(a.other, b.other)}", replay=rp("host-writes"))
+    qa, qb = sigs(A1, ra), sigs(B2, rb)
+    ctx.prove(sess, "same-launches/after-acceleration", z3.BoolVal(qa == qb), desc=f"step() and step1();step2() differ after the smooth acceleration solve: {first_diff(qa, qb)}", replay=rp("same-launches-after"))
+    def hostops(hr, ren):
+      out = []
+      for n, kind, info in hr.other:
+        names = info if isinstance(info, tuple) else (info,)
+        out.append((kind,) + tuple(ren.setdefault(x, f"scratch{len(ren)}") if isinstance(x, str) and x.startswith("tmp") else x for x in names))
+      return out
+
+    ha, hb = hostops(a, ra), hostops(b, rb)
+    ctx.prove(sess, "same-host-writes", z3.BoolVal(ha == hb), desc=f"zero_/fill_/copy operations differ: {first_diff(ha, hb)}", replay=rp("host-writes"))
     if sleep:
       return
     # factorisation reads M and writes qLD / qLDiagInv; the solve reads them and qfrc_smooth and writes qacc_smooth
@@ -260,12 +313,60 @@ def unit_compose(integ, sleep=False):
       for p, lab, o in l.bound():
         if lab in moved:
           write_query(ctx, l, f"capture:checks.c37:capture:step12|{integ}|1|0|{idx}", p, f"between-factorisations/no-write/{lab}/{l.key.replace('__locals__', '.')}#{idx}", f"{l.key} (launched between fwd_position's factorisation and fwd_acceleration's solve) can write {lab}: moving the factorisation changes the result", replay=rp("between"))
-    for kind, info in b.other:
+    for n, kind, info in b.other:
       dest = info[0] if isinstance(info, tuple) else info
-      if dest in moved:
-        ctx.prove(sess, f"between-factorisations/host-write/{dest}", z3.BoolVal(kind == "copy" and False), desc=f"host {kind} on {dest}", replay=rp("between"))
+      if dest in moved and f1 <= n <= s0:
+        ctx.prove(sess, f"between-factorisations/host-write/{dest}", z3.BoolVal(False), desc=f"host {kind} on {dest} between the two factorisation points", replay=rp("between"))
 
   return (f"compose/{integ}" + ("/sleep" if sleep else ""), run)
+
+
+def unit_readonly(integ):
+  """sanity lemma behind the data-flow reading of the traces: a Data field that the host passes to a kernel as an INPUT (not in
+  outputs=[...], not named *_out) is never stored to; decided per kernel of the step() trace by K-mode write queries"""
+
+  def run(ctx):
+    import mujoco_warp as mjw
+
+    hr = trace(lambda m, d: mjw.step(m, d), xml_for(integ))
+    ctx.bound(integrator=integ, unroll=2, note="every distinct non-tile kernel launched by step() on the tiny model")
+    ctx.assume("float products are uninterpreted", "history funcs replaced by their write contracts (C30)")
+    sess = ctx.session([])
+    ctx.reach(sess, "twin:traced", z3.BoolVal(len(hr.launches) > 10))
+    seen = set()
+    nk = nq = 0
+    for idx, l in enumerate(hr.launches):
+      if id(l.kernel) in seen:
+        continue
+      seen.add(id(l.kernel))
+      ro = [p for i, (p, a) in enumerate(zip(l.params, l.args)) if isinstance(a, host.SymArr) and a.name_.startswith("d.") and i < l.nin and not p.endswith("_out")]
+      if not ro:
+        continue
+      if l.tiled:
+        ctx.notes.append(f"outside: tile kernel {l.key}")
+        continue
+      try:
+        kt = lib.kernel_thread(l.kernel, unroll=2, alias_inout=False, interp_kw={"float_uf": True, "summaries": history_stubs()})
+      except core.Unsupported as ex:
+        ctx.notes.append(f"outside: {l.key} not encodable ({ex})")
+        continue
+      nk += 1
+      ctx.encode(l.kernel)
+      s2 = None
+      for p in ro:
+        cell = kt.cell(p)
+        sites = [a for a in kt.it.accesses if a.cell is cell and a.kind.startswith(("W", "A"))]
+        nq += 1
+        if not sites:
+          ctx.prove(sess, f"input-not-stored/{l.key.replace('__locals__', '.')}/{p}", True, desc="")
+          continue
+        s2 = s2 or ctx.session(kt.bg)
+        env = {"label": p}
+        rp = lib.make_replay(ctx, kt, f"capture:checks.c37:capture:step|{integ}|1|0|{idx}", f"input-not-stored/{p}", "goal", goal="checks.c37:goal_nowrite", env=env)
+        ctx.prove(s2, f"input-not-stored/{l.key.replace('__locals__', '.')}/{p}", Not(Or(*[a.guard for a in sites])), replay=rp, desc=f"{l.key} stores to `{p}` although the host passes it as an input: launch traces do not describe the data flow")
+    ctx.notes.append(f"{nk} kernels, {nq} input parameters examined")
+
+  return (f"dataflow/inputs-readonly/{integ}", run)
 
 
 def first_diff(x, y):
@@ -333,7 +434,7 @@ def unit_forward(name, delay):
           F = lab[2:]
           nbound += 1
           write_query(ctx, l, f"capture:checks.c37:capture:forward|Euler|{int(delay)}|0|{idx}", p, f"forward-writes/{F}/{l.key.replace('__locals__', '.')}#{idx}", f"forward() launches {l.key} with Data.{F} bound to `{p}` and the kernel can store to it: forward() modifies the integration state", replay=forward_replay(ctx, delay, F))
-    for kind, info in hr.other:
+    for n, kind, info in hr.other:
       dest = info[0] if isinstance(info, tuple) else info
       if isinstance(dest, str) and dest.startswith("d.") and dest[2:] in STATE_FIELDS:
         ctx.prove(sess, f"forward-writes/{dest[2:]}/host-{kind}", z3.BoolVal(False), desc=f"forward() applies {kind} to Data.{dest[2:]}", replay=forward_replay(ctx, delay, dest[2:]))
@@ -349,7 +450,7 @@ def main(tier, seed, only=None):
 
   units = [unit_compose("Euler"), unit_compose("implicitfast"), unit_compose("implicit"), unit_compose("Euler", sleep=True), unit_forward("delay", True), unit_forward("plain", False)]
   if tier == "thorough":
-    units += [unit_compose("implicitfast", sleep=True)]
+    units += [unit_compose("implicitfast", sleep=True), unit_readonly("Euler")]
   if only:
     units = [u for u in units if any(o in u[0] for o in only)]
   return report.run_check(PID, units, tier, seed)
